@@ -160,7 +160,8 @@ def run_check(pid, tier, seed, replay=None):
                                                     found_input=True))
             if m != c.out:
                 disagreements += 1
-                kind, why = judge(c, m) if judge else default_judge(c, m)
+                verdict = judge(c, m) if judge else None
+                kind, why = verdict if verdict else default_judge(c, m)
                 if kind == "violates":
                     n_viol += 1
                     if n_viol > 3:
